@@ -705,3 +705,173 @@ def oracle_stat(mon, name, pre, data, channels, out):
         mon.chk(ok, 'stats:definition:' + name, stat=name, got=got, want=exp, rel=abs(got - exp) / max(abs(exp), 1e-300),
                 dtype=str(pre.dtype), n=len(lst), container='sample' if pre.sample else 'array')
     input_unchanged(mon, pre, data, 'stats')
+
+
+# ------------------------------------------------------------------------------
+# C09: bead model fit (structural identities hold for every fit whatsoever)
+# ------------------------------------------------------------------------------
+
+def _attach_fit(self):
+    M = self.F.mef
+    orig = M.fit_beads_autofluorescence
+    self.rebind(M, 'fit_beads_autofluorescence', lambda o: _wrap_fit(self, o))
+    new = M.fit_beads_autofluorescence
+    # get_transform_fxn captured the function as a default argument: re-point it as well
+    g = getattr(M.get_transform_fxn, '__rv_orig__', M.get_transform_fxn)
+    if g.__defaults__ and any(d is orig for d in g.__defaults__):
+        old = g.__defaults__
+        g.__defaults__ = tuple(new if d is orig else d for d in old)
+        self.orig.append((g, '__defaults__', old))
+
+
+Monitors.attach_fit = _attach_fit
+
+
+def _wrap_fit(mon, orig):
+    def fit_beads_autofluorescence(fl_rfi, fl_mef):
+        a0, b0 = np.array(fl_rfi, dtype=float, copy=True), np.array(fl_mef, dtype=float, copy=True)
+        out = orig(fl_rfi, fl_mef)
+        try:
+            oracle_fit_structure(mon, a0, b0, fl_rfi, fl_mef, out)
+        except Exception as e:   # noqa
+            mon.ctx.note('oracle-error fit: ' + core.exc_str(e))
+            mon.ctx.counters['oracle_errors'] += 1
+        return out
+    return fit_beads_autofluorescence
+
+
+def oracle_fit_structure(mon, a0, b0, fl_rfi, fl_mef, out):
+    std_crv, beads_model, params = out[0], out[1], np.asarray(out[2], dtype=float)
+    d = dict(rfi=a0.tolist(), mef=b0.tolist(), params=params.tolist())
+    mon.chk(len(a0) == len(b0) and len(a0) >= 3, 'fit:too-few-or-mismatched-accepted', **d)
+    mon.chk(len(params) == 3, 'fit:params-count', **d)
+    mon.chk(not (params[2] < 0), 'fit:negative-autofluorescence', **d)
+    if not np.all(np.isfinite(params)) or params[0] <= 0:
+        # a power law with non-positive exponent diverges at zero: "zero at zero" is unsatisfiable there.
+        # Degenerate fits are counted; the driver judges them where the pairs are ordered by brightness.
+        mon.ctx.counters['fit_degenerate'] += 1
+        mon.last_fit_degenerate = True
+        return
+    mon.last_fit_degenerate = False
+    pos = a0[a0 > 0]
+    lo, hi = (pos.min(), pos.max()) if len(pos) else (1.0, 10.0)
+    x = np.geomspace(lo / 10, hi * 10, 61)
+    with np.errstate(all='ignore'):
+        y = np.asarray(std_crv(x), dtype=float)
+        ym = np.asarray(std_crv(-x), dtype=float)
+        z = std_crv(np.array([0.0]))[0]
+        z2 = std_crv(0.0)
+    mon.chk(z == 0 and z2 == 0, 'fit:std-crv-not-zero-at-zero', at_zero=float(z), **d)
+    mon.chk(np.array_equal(ym, -y), 'fit:std-crv-not-odd', **d)
+    if params[0] > 0 and np.all(np.isfinite(y)):
+        mon.chk(bool(np.all(np.diff(y) > 0)), 'fit:std-crv-not-increasing', **d)
+    with np.errstate(all='ignore'):
+        bm = np.asarray(beads_model(x), dtype=float)
+    fin = np.isfinite(bm) & np.isfinite(y)
+    tolv = 1e-12 * np.maximum(np.abs(y), params[2])
+    mon.chk(bool(np.all(np.abs(bm[fin] - (y[fin] - params[2])) <= tolv[fin] + 1e-300)), 'fit:beads-model-identity', **d)
+    ok = np.array_equal(np.asarray(fl_rfi, dtype=float), a0) and np.array_equal(np.asarray(fl_mef, dtype=float), b0)
+    mon.chk(ok, 'fit:input-mutated', **d)
+
+
+# ------------------------------------------------------------------------------
+# C19: histogram bin edges
+# ------------------------------------------------------------------------------
+
+def _attach_hist_bins(self):
+    cls = self.F.io.FCSData
+    self.rebind(cls, 'hist_bins', lambda orig: _wrap_hist_bins(self, orig))
+
+
+Monitors.attach_hist_bins = _attach_hist_bins
+
+
+def _wrap_hist_bins(mon, orig):
+    def hist_bins(self, channels=None, nbins=None, scale='logicle', **kwargs):
+        try:
+            pre_range = [None if r is None else [float(r[0]), float(r[1])] for r in self.range()]
+            pre_vals = np.array(np.asarray(self), dtype=float)
+        except Exception:   # noqa
+            pre_range = None
+        out = orig(self, channels, nbins, scale, **kwargs)
+        if pre_range is not None:
+            try:
+                oracle_hist_bins(mon, self, pre_range, pre_vals, channels, nbins, scale, kwargs, out)
+            except Exception as e:   # noqa
+                mon.ctx.note('oracle-error hist_bins: ' + core.exc_str(e))
+                mon.ctx.counters['oracle_errors'] += 1
+        return out
+    return hist_bins
+
+
+def oracle_hist_bins(mon, s, pre_range, vals, channels, nbins, scale, kwargs, out):
+    from rv.refmodels import logicle as ref
+    D = len(s.channels)
+    if channels is None:
+        pos, is_list = list(range(D)), True
+    else:
+        pos, scalar = norm_channels(s if s.ndim == 2 else s.reshape(1, -1), channels)
+        is_list = isinstance(channels, list)
+        if not is_list and not scalar:
+            mon.ctx.note('hist_bins with non-list iterable channels (not judged)')
+            return
+    k = len(pos)
+    outs = out if is_list else [out]
+    if not mon.chk(isinstance(outs, list) and len(outs) == k, 'hist_bins:result-count', got=len(outs) if isinstance(outs, list) else -1, want=k):
+        return
+    nb = nbins if isinstance(nbins, list) else [nbins] * k
+    sc = scale if isinstance(scale, list) else [scale] * k
+    res = s.resolution()
+    at = s.amplification_type()
+    for j, p in enumerate(pos):
+        e = np.asarray(outs[j], dtype=float)
+        n = res[p] if nb[j] is None else nb[j]
+        lo, hi = pre_range[p]
+        d = dict(channel=int(p), scale=sc[j], nbins=nb[j], resolution=int(res[p]), range=[lo, hi])
+        ok = e.ndim == 1 and len(e) == n + 1 and bool(np.all(np.isfinite(e))) and bool(np.all(np.diff(e) > 0))
+        if not mon.chk(ok, 'hist_bins:edges-count-finite-increasing', n_edges=int(e.size), **d):
+            continue
+        if sc[j] == 'linear':
+            mon.chk(e[0] <= lo and e[-1] >= hi, 'hist_bins:range-not-covered', first=float(e[0]), last=float(e[-1]), **d)
+            if nb[j] is None and lo == 0 and hi == res[p] - 1:
+                kk = np.arange(res[p], dtype=float)
+                c = 0.5 * (e[:-1] + e[1:])
+                mon.chk(bool(np.all(np.abs(c - kk) <= 1e-9 * res[p])), 'hist_bins:value-not-bin-centre', **d)
+                mon.chk(bool(np.array_equal(np.digitize(kk, e) - 1, kk.astype(int))), 'hist_bins:value-in-wrong-bin', **d)
+                mon.ctx.counters['chk_hist_centre_linear'] += 1
+        elif sc[j] == 'log':
+            mon.chk(e[0] > 0, 'hist_bins:log-edges-not-positive', first=float(e[0]), **d)
+            mon.chk(e[-1] >= hi * (1 - 1e-12) and (lo <= 0 or e[0] <= lo * (1 + 1e-12)), 'hist_bins:range-not-covered',
+                    first=float(e[0]), last=float(e[-1]), **d)
+            a = at[p]
+            if nb[j] is None and a is not None and a[0] != 0 and lo > 0:
+                R = res[p]
+                want_lo, want_hi = a[1], a[1] * 10 ** (a[0] * (R - 1) / float(R))
+                if abs(lo - want_lo) <= 1e-9 * want_lo and abs(hi - want_hi) <= 1e-9 * want_hi:
+                    kk = np.arange(R, dtype=float)
+                    v = a[1] * 10 ** (a[0] * kk / float(R))
+                    c = np.sqrt(e[:-1] * e[1:])
+                    mon.chk(bool(np.all(np.abs(c / v - 1) <= 1e-9)), 'hist_bins:value-not-bin-centre', **d)
+                    mon.chk(bool(np.array_equal(np.digitize(v, e) - 1, kk.astype(int))), 'hist_bins:value-in-wrong-bin', **d)
+                    mon.ctx.counters['chk_hist_centre_log'] += 1
+        elif sc[j] == 'logicle':
+            y = vals[:, p] if vals.ndim == 2 else vals
+            T, M, W = ref.derive([y], p, [hi])
+            T, M, W = kwargs.get('T', T), kwargs.get('M', None), kwargs.get('W', None)
+            if M is None:
+                M = max(4.5, 4.5 * math.log10(T) / math.log10(262144))
+            if W is None:
+                W = 0
+                if np.any(y < 0):
+                    W = max(0, (M - math.log10(T / abs(float(np.min(y))))) / 2)
+            delta = float(M) / (res[p] - 1)
+            grid = np.linspace(-delta / 2., M + delta / 2., n + 1)
+            want = np.asarray(ref.forward(grid, T, M, W), dtype=float)
+            pp = ref.solve_p(W)
+            scl = float(T) * 10 ** (-(M - W)) * (1 + pp * pp)
+            f32 = s.dtype.kind == 'f' and s.dtype.itemsize == 4
+            rt = 2e-5 if f32 else 1e-9
+            mon.chk(bool(np.all(np.abs(e - want) <= rt * np.abs(want) + rt * scl)), 'hist_bins:logicle-not-uniform-display-grid',
+                    T=float(T), M=float(M), W=float(W), worst=float(np.max(np.abs(e - want) / (np.abs(want) + scl))), **d)
+            mon.chk(e[0] <= min(lo, 0) + 1e-9 * scl and e[-1] >= hi * (1 - 1e-12) if 'T' not in kwargs and 'M' not in kwargs else True,
+                    'hist_bins:range-not-covered', first=float(e[0]), last=float(e[-1]), **d)
